@@ -431,9 +431,14 @@ fn main() {
         run.finish(1, "replay of one recorded schedule", false);
     }
 
-    let hs = harnesses(tier);
+    let mut hs = harnesses(tier);
+    // development aids: LAB_SF_FILTER=<substring of harness name>, LAB_SF_BOUND=<n>, LAB_SF_BUDGET=<secs>
+    if let Ok(f) = std::env::var("LAB_SF_FILTER") {
+        hs.retain(|h| h.name.contains(&f));
+    }
+    let bound_override: Option<usize> = std::env::var("LAB_SF_BOUND").ok().and_then(|x| x.parse().ok());
     let bound = tier.pick(2, 3);
-    let budget = Duration::from_secs(tier.pick(40, 420));
+    let budget = Duration::from_secs(std::env::var("LAB_SF_BUDGET").ok().and_then(|x| x.parse().ok()).unwrap_or(tier.pick(40, 420)));
     let t0 = Instant::now();
     let per = budget / (hs.len() as u32);
     // harnesses are independent: explore them on parallel OS threads (each exploration owns its own scheduler)
@@ -449,7 +454,7 @@ fn main() {
                 let mut p = Partial::default();
                 let mut m = vec![];
                 // unbounded for the two-caller harnesses in thorough, else the tier's bound
-                let b = if tier == Tier::Thorough && hs[i].callers.len() == 2 { 64 } else { bound };
+                let b = bound_override.unwrap_or(if tier == Tier::Thorough && hs[i].callers.len() == 2 { 64 } else { bound });
                 let deadline = Instant::now() + per * 12;
                 let (ex, dec, outs) = explore_one(&hs[i], b, deadline, &mut p, &mut m);
                 p.sample(json!({"harness": hs[i].to_json(), "bound": b, "schedules": ex, "distinct_outcomes": outs.len()}));
